@@ -21,6 +21,7 @@ from datetime import timedelta
 from functools import partial
 from typing import TYPE_CHECKING, Any
 
+from stabilize.errors import ConcurrencyError
 from stabilize.handlers.base import StabilizeHandler
 from stabilize.handlers.jump_to_stage.reset import (
     reset_stage_for_retry,
@@ -53,6 +54,10 @@ logger = logging.getLogger(__name__)
 
 # Default maximum number of jumps allowed per execution
 DEFAULT_MAX_JUMPS = 10
+
+
+class _WorkflowChangedError(Exception):
+    """The execution was canceled / finished after this handler loaded it."""
 
 
 class JumpToStageHandler(StabilizeHandler[JumpToStage]):
@@ -104,9 +109,17 @@ class JumpToStageHandler(StabilizeHandler[JumpToStage]):
         mutations: list[tuple[str, Any]],
         message: JumpToStage,
         messages_to_push: list[Any],
+        guard_execution: Workflow | None = None,
     ) -> None:
         """Apply every stage mutation of a jump plus its follow-on messages in
         ONE transaction.
+
+        With ``guard_execution`` the transaction first re-asserts (compare-and-
+        swap on the execution row) that the execution still has the status and
+        canceled flag it was loaded with: the stage rows below are re-read
+        fresh on every attempt, so without it a cancel that lands after the
+        handler's is_canceled check would be invisible to the optimistic locks
+        and the jump would re-arm stages of a canceled execution.
 
         A jump that commits stage-by-stage can crash half-applied: the source
         already SUCCEEDED while skip-region stages are still startable, which
@@ -117,6 +130,12 @@ class JumpToStageHandler(StabilizeHandler[JumpToStage]):
 
         def attempt() -> None:
             with self.repository.transaction(self.queue) as txn:
+                if guard_execution is not None:
+                    try:
+                        txn.update_workflow_status(guard_execution, expected_status=guard_execution.status.name)
+                    except ConcurrencyError as e:
+                        # not a stale-version conflict: retrying the same attempt cannot help
+                        raise _WorkflowChangedError(str(e)) from e
                 for stage_id, mutate in mutations:
                     fresh = self.repository.retrieve_stage(stage_id)
                     if fresh is None:
@@ -308,17 +327,23 @@ class JumpToStageHandler(StabilizeHandler[JumpToStage]):
             # Apply every mutation + mark processed + StartStage push in ONE
             # transaction: a crash rolls the whole jump back to a consistent
             # pre-jump state instead of leaving it half-applied.
-            self._apply_jump(
-                mutations,
-                message,
-                [
-                    StartStage(
-                        execution_type=message.execution_type,
-                        execution_id=message.execution_id,
-                        stage_id=target_stage.id,
-                    )
-                ],
-            )
+            try:
+                self._apply_jump(
+                    mutations,
+                    message,
+                    [
+                        StartStage(
+                            execution_type=message.execution_type,
+                            execution_id=message.execution_id,
+                            stage_id=target_stage.id,
+                        )
+                    ],
+                    guard_execution=execution,
+                )
+            except _WorkflowChangedError as e:
+                # handle()'s retry re-reads the execution and takes the
+                # "execution is canceled" path above
+                raise ConcurrencyError(str(e)) from e
 
         self.with_stage(message, on_stage)
 
